@@ -357,7 +357,7 @@ def gen_edit(rng, in_guard):
     return e
 
 def gen_upd_case(rng):
-    in_guard = rng.random() < 0.7          # in_guard: plain terms, and the base is never mutated (D35 class avoided)
+    in_guard = rng.random() < 0.7          # in_guard: plain (delimiter-free) terms only
     eqs = [gen_equation(rng, rng.randint(3, 10)) for _ in range(rng.randint(1, 3))]
     names = rng.sample(IDENTS, rng.randint(2, 6))
     variables = {v: rng.choice(SPECS) for v in names}
@@ -508,7 +508,6 @@ Fixpoint split_bar (cur : str) (s : str) : list str :=
 Definition count_bad (f : str -> option str) (ins outs : list str) : nat :=
   List.length (filter (fun p => negb (ostr_eqb (f (fst p)) (Some (snd p)))) (combine ins outs)).
 (* ---- upd ---- *)
-Definition d35_repaired := D35_REPAIRED.
 Definition link := (eq_update * list (str * str))%type.
 Definition lout := (list str * list (str * str) * list (str * str))%type.      (* equations, variables, base_after *)
 Definition vars_eqb := list_eqb (pair_eqb str_eqb str_eqb).
@@ -518,7 +517,7 @@ Fixpoint chainI (eqs : list str) (vars : list (str * str)) (ls : list link) : op
   | (u, vu) :: ls' =>
     match update_op str is_delim eqs vars u vu with
     | Some (eqs', vars') => match chainI eqs' vars' ls' with
-                            | Some r => Some ((eqs', vars', if d35_repaired then vars else base_vars_after str vars eqs' vu) :: r) | None => None end
+                            | Some r => Some ((eqs', vars', vars) :: r) | None => None end
     | None => None
     end
   end.
@@ -539,14 +538,6 @@ Definition updS (c : list str * list (str * str) * list link * list lout) :=
   let '(eqs, vars, ls, exp) := c in list_eqb lout_eqb (chainS eqs vars ls) exp.
 Definition link_plain (l : link) := match fst l with EqEdit e _ => edit_ok is_delim e | _ => true end.
 Definition upd_plain (c : list str * list (str * str) * list link * list lout) := let '(eqs, vars, ls, exp) := c in forallb link_plain ls.
-Fixpoint chain_nomut (eqs : list str) (vars : list (str * str)) (ls : list link) : bool :=
-  match ls with
-  | [] => true
-  | (u, vu) :: ls' => match update_op str is_delim eqs vars u vu with
-                      | Some (eqs', vars') => (d35_repaired || base_not_mutated str vars eqs' vu) && chain_nomut eqs' vars' ls'
-                      | None => true end
-  end.
-Definition upd_nomut (c : list str * list (str * str) * list link * list lout) := let '(eqs, vars, ls, exp) := c in chain_nomut eqs vars ls.
 (* ---- yaml ---- *)
 Definition yamlStore (p : circ * store * den * option den) := let '(c, st, d0, d1) := p in store_eqb (snd (dump c)) st.
 Definition yamlDen0 (p : circ * store * den * option den) := let '(c, st, d0, d1) := p in den_eqb (denote c) d0.
@@ -562,10 +553,7 @@ Definition gPar (p : circ * store * den * option den) := let '(c, st, d0, d1) :=
 """
 
 def header(ctx=None):
-    """D35 (update_template pops rogue variables from the base's own dict) is modelled as long as it is a listed finding;
-    once it is repaired (entry dropped or status fixed) the mechanism model is the repaired behaviour: base untouched"""
-    d35_open = any(f["id"] == "C15-base-mutated" for f in known_findings("C15")) and os.environ.get("C15_D35") != "repaired"
-    return HEADER.replace("D35_REPAIRED", "false" if d35_open else "true")
+    return HEADER
 
 def cs(s):
     return f"(L {cstr(s)})" if s else "[]"
@@ -764,18 +752,16 @@ def check(ctx):
     idx = [i for i, c in enumerate(cases) if c["kind"] == "upd" and i not in crashed]
     if idx:
         items = [coq_upd(cases[i], outs[i]) for i in idx]
-        bI, bS, pl, nm = eval_lists(ctx, "upd", "list str * list (str * str) * list link * list lout", ["updI", "updS", "upd_plain", "upd_nomut"], items, 150)
+        bI, bS, pl = eval_lists(ctx, "upd", "list str * list (str * str) * list link * list lout", ["updI", "updS", "upd_plain"], items, 150)
         noplain = set(pl)
         for k in bI:
             bad_impl.append(idx[k])
-        for k in nm:
-            gv.setdefault(idx[k], []).append("base_not_mutated")
         for k in bS:
             if k not in noplain:
                 bad_spec.append(idx[k])
         for k, i in enumerate(idx):          # YAML `base:` chain = Python update_template chain (both are the real code)
             o = outs[i]
-            if k not in set(nm) and (o["yaml"]["equations"] != o["links"][-1]["equations"] or o["yaml"]["variables"] != o["links"][-1]["variables"]):
+            if (o["yaml"]["equations"] != o["links"][-1]["equations"] or o["yaml"]["variables"] != o["links"][-1]["variables"]):
                 bad_spec.append(i)
     # ---- yaml
     idx = [i for i, c in enumerate(cases) if c["kind"] == "yaml" and i not in crashed]
@@ -827,8 +813,6 @@ def check(ctx):
         r = run_impl(ctx, "c15", "impl", [w], nworkers=1)[0]
         if w["kind"] == "rep":
             return r != py_words_sided(w["eq"], w["term"], w["rep"], w["rhs"], w["lhs"])
-        if w["kind"] == "upd":
-            return [k for k, _ in r["links"][0]["base_after"]] != list(w["base"]["variables"])
         return not yaml_spec_ok(r)
     conclude(ctx, cases=cases, impl_out=outs, bad_spec=bad_spec, bad_impl=bad_impl, crashed=crashed, problem=problem, guard_viol=gv,
              spec_name="the C15 specification (word-wise substitution / override algebra / denotation-preserving round trip)",
@@ -865,7 +849,7 @@ def check(ctx):
                                    "Python transcriptions of Replace.replace_words / Replace.loopA; the transcriptions are tied to the Coq model only through the "
                                    "smaller space, where model = real = transcription."),
                               impl_vs_model_mismatches=len(bad_impl), impl_vs_spec_mismatches=len(bad_spec),
-                              outside_guards={g: sum(1 for v in gv.values() if g in v) for g in ("no_side_flags", "base_not_mutated", "variants_le2", "no_rename", "const_overrides", "no_parallel_tpl_edges")}),
+                              outside_guards={g: sum(1 for v in gv.values() if g in v) for g in ("no_side_flags", "variants_le2", "no_rename", "const_overrides", "no_parallel_tpl_edges")}),
                    trusted_base=["numpy float64 arithmetic is exact on the generated dyadic data (vector fields are compared as exact rationals)",
                                  "harness reading of template objects (walk), of the written YAML file (read_store, ruamel safe loader) and of variable "
                                  "definitions (PyRates' own _parse_defaults)",
